@@ -414,6 +414,28 @@ func runC14(p *core.Prog, r *core.Report, tier string) {
 						}
 					}
 				}
+				// the clamp written as a guarded division: modulo starts at 1 and becomes the quotient only where
+				// numerator >= denominator
+				if phi, ok := mod.Val.(*ssa.Phi); ok && !clamp {
+					leaves := core.PhiLeaves(phi, in)
+					hasOne, allGuarded, nQuot := false, true, 0
+					for _, lf := range leaves {
+						if core.IsIntConst(lf.V, 1) {
+							hasOne = true
+							continue
+						}
+						q, isQ := lf.V.(*ssa.BinOp)
+						if !isQ || q.Op != token.QUO {
+							allGuarded = false
+							continue
+						}
+						nQuot++
+						if w := core.UnguardedLeaf(ds, f, nil, lf, func(c core.Cond) int { return numeratorNotBelowDenominator(ds, c, q) }); w != nil {
+							allGuarded = false
+						}
+					}
+					clamp = hasOne && allGuarded && nQuot > 0
+				}
 				// the clamp written as max(quotient, 1)
 				if mc, ok := mod.Val.(*ssa.Call); ok {
 					if b, isB := mc.Call.Value.(*ssa.Builtin); isB && b.Name() == "max" && len(mc.Call.Args) == 2 {
